@@ -9,8 +9,9 @@
 (* > 0) connections that start with a BigN-byte ECHO followed by one small    *)
 (* frame, written in <= BigChunks pieces cut inside the payload and at every  *)
 (* byte of the follower - the big frame stays run-length encoded throughout.  *)
-(* Legacy (self-tests) may contain "decode" / "encode": the pinned tree's      *)
-(* header-eating decoder / raw error text.                                    *)
+(* Legacy (self-tests) may contain "decode" / "encode" / "chars": the pinned   *)
+(* tree's header-eating decoder / raw error text / a bulk length counted in   *)
+(* characters.                                                                *)
 EXTENDS Resp, TLC, Json
 
 CONSTANTS MaxFrames, MaxChunks, MaxChunks1, Live, Legacy, Univ, Lemmas,
@@ -43,7 +44,9 @@ InlineWires == <<
     PINGb \o CRLF,                                  \* 15 inline PING
     <<101, 99, 104, 111, 32, 32, 97>> \o CRLF       \* 16 inline "echo  a"
 >>
-AllWires == [i \in 1..Len(Vals) |-> Encode(Vals[i])] \o InlineWires
+\* 17: ECHO of multi-byte UTF-8 text (2-, 3-, 4-byte characters): lengths are byte counts
+Utf8Wires == <<Encode(Arr(<<B(ECHOb), B(<<195, 169, 226, 130, 172, 240, 159, 152, 128>>)>>))>>
+AllWires == [i \in 1..Len(Vals) |-> Encode(Vals[i])] \o InlineWires \o Utf8Wires
 Wires == {AllWires[i] : i \in Univ}
 
 Init == RInit /\ hist = <<>>
@@ -71,7 +74,7 @@ DoDeliver ==
 
 DoDecode ==
     /\ LET r == Top(buf)
-           rb == IF r.k = "frame" THEN EncodeWith(ModelReply(r.v), "encode" \notin Legacy) ELSE <<>> IN
+           rb == IF r.k = "frame" THEN EncodeWith(ModelReply(r.v), IF "encode" \in Legacy THEN "raw" ELSE IF "chars" \in Legacy THEN "chars" ELSE "clean") ELSE <<>> IN
        IF Legacy # {} THEN LegacyDecode(rb, "decode" \in Legacy)
        ELSE IF r.k = "frame" THEN Decode("value", r.v, rb)
        ELSE Decode("need", Null, <<>>)
